@@ -9,6 +9,7 @@ mod perm_lens;
 mod srv;
 mod topic_lens;
 mod util;
+mod wire_lens;
 
 use std::io::BufRead;
 
@@ -87,6 +88,10 @@ fn main() {
         "jrn" => {
             let l = jrn_lens::JrnLens::new(&work);
             each_scenario::<jrn_lens::Scenario>(&input, &mut tool_errors, |n, s| l.run_scenario(n, s, &mut out))
+        }
+        "wire" => {
+            let l = wire_lens::WireLens::new(&work);
+            each_scenario::<wire_lens::Scenario>(&input, &mut tool_errors, |n, s| l.run_scenario(n, s, &mut out))
         }
         "grp" => {
             let l = grp_lens::GrpLens::new(&work);
